@@ -570,10 +570,36 @@ def text_queries(tier):
     return qs
 
 
+VALUE_SCRIPTS = ["(VQ)", "()", "{}", "(UDT)", "(V(Q)V)", "{KV}", "{KVKQ}", "({KV}V)"]      # a table nested in a table: recursion bound of cif_value_free not provable (symbolic kinds): not claimed
+VALUE_SCRIPTS_MORE = ["((V))", "(VVVV)", "{KVKVKV}", "(({KV}))", "(T{KT})"]      # a list nested in a table ("{K(V)}") gives no verdict in 600 s: not claimed
+VALUE_DEFECTS = [("list_unterminated_eof", "(VV", "136", 2, 3), ("list_unterminated_name", "(VN", "136", 1, 2), ("table_unterminated", "{KVN", "136", 1, 3),
+                 ("table_missing_value", "{K}", "133", 1, 3),       # ("{V}": the search for a colon inside the symbolic token makes the token stream symbolic - no verdict) ("table_stray_quoted", "{Q}", "137", 0, 3),
+                 ("table_stray_list", "{KV(V)}", "137", 1, 7), ("nested_unterminated", "({KV)", "136", 1, 5)]
+
+
+def value_queries(tier, prefix, defects):
+    """The real parse_value / parse_list / parse_table over token scripts (contents of the tokens symbolic)."""
+    qs = []
+    items = [(sc, None) for sc in (VALUE_SCRIPTS + (VALUE_SCRIPTS_MORE if tier != "quick" else []))] if not defects else [(d[1], d) for d in VALUE_DEFECTS]
+    for sc, d in items:
+        defs = {"SCRIPT": '"%s"' % sc, "EXISTING": 1 if (len(sc) % 2) else 0}
+        if d:
+            defs.update({"EXPECT_ERRS": d[2], "EXPECT_TOP": d[3], "EXPECT_CONSUMED": d[4]})
+        nm = ("value_" + sc.replace("(", "l").replace(")", "j").replace("{", "t").replace("}", "e")) if not d else ("defect_" + d[0])
+        qs.append(Q("%s_%s" % (prefix, nm), "h01_value.c", defs=defs, extra=ICU_NORM_CHEAP, libtus=PROD_TUS, remove=[("parser.c", "__CPROVER_file_local_parser_c_next_token"), ("value.c", "cif_value_set_quoted"), ("value.c", "cif_value_try_quoted")],
+                    unwind=len(sc) + 4, unwindset=[e.replace(":2", ":4") for e in VAL_REC] + ["harness.*:162", "memset.*:2000", "memcmp.*:8", "check:5", "skip:6",
+                                                            "__CPROVER_file_local_parser_c_parse_value:5", "__CPROVER_file_local_parser_c_parse_list:4", "__CPROVER_file_local_parser_c_parse_table:4"],
+                    mode="func", replay=False, uthash="model", object_bits=11, timeout=600 if tier == "quick" else 1800, mem_gb=8,
+                    bounds={"token script": sc, "token contents": "two symbolic code units per value / key token", "target": "existing value object" if defs["EXISTING"] else "new value object"},
+                    note="real parse_value / parse_list / parse_table over a token script: " + ("the tree the tokens denote" if not d else "defect class: code and recovery")))
+    return qs
+
+
 def c01(tier):
-    qs = scan_queries(tier) + tok_queries(tier) + text_queries(tier)
+    qs = scan_queries(tier) + tok_queries(tier) + text_queries(tier) + value_queries(tier, "C01", False)
     for q in qs:
-        q.name = "C01_" + q.name
+        if not q.name.startswith("C01_"):
+            q.name = "C01_" + q.name
     return qs
 
 
@@ -681,7 +707,7 @@ def c12(tier):
     qs = scan_queries(tier) + tok_queries(tier)
     for q in qs:
         q.name = "C12_" + q.name
-    return qs + prod_defect_queries(tier, "C12")
+    return qs + prod_defect_queries(tier, "C12") + value_queries(tier, "C12", True)
 
 
 def c03(tier):
@@ -695,11 +721,11 @@ def c03(tier):
     return qs
 
 
-META["C01"] = {"files": ["parser.c"], "functions": ["next_token", "scan_ws", "scan_to_ws", "scan_to_eol", "scan_unquoted", "scan_delim_string", "scan_triple_delim_string", "scan_text", "decode_text", "cif_parse_internal (table set-up)"],
+META["C01"] = {"files": ["parser.c"], "functions": ["next_token", "scan_ws", "scan_to_ws", "scan_to_eol", "scan_unquoted", "scan_delim_string", "scan_triple_delim_string", "scan_text", "decode_text", "parse_value", "parse_list", "parse_table", "cif_parse_internal (table set-up)"],
                "stubs": ["get_first_char / get_more_chars = contract for an exhausted source (C08)", "parse_cif = harness body", "stubs/icu_str.c", "stubs/icu_norm_cheap.c and uthash model (decode_text queries link value.c)"],
                "assumptions": ["one token / one text-field body per query; composition over a document is by the token / production contracts (argued)", "CIF_LINE_LENGTH shrunk by hook", "no CR inside a text-field body (EOL-normalised buffer, C08)"],
                "outside": ["byte -> UChar decoding", "tokens longer than the bound", "characters the reference tokenizer leaves unspecified get generic assertions only",
-                           "parse_value / parse_list / parse_table / parse_cif and the storage of parsed content", "non-default folding / prefix options"]}
+                           "parse_cif and the storage of parsed content", "composite values beyond the enumerated token scripts (list / table nested in a table: no verdict)", "non-default folding / prefix options"]}
 
 
 # ------------------------------------------------------------------------------------------ C02 / C13
@@ -957,10 +983,12 @@ MANI["C01"] = {
             "buffers of 5 (thorough 6-7) 16-bit units in both dialects, and the real next_token with all of them inlined for ALL buffers of 3 "
             "(thorough 4, plus reserved-word / delimiter prefixes) - token type, value extent, consumption, line count, no error on "
             "well-formed input; and the real decode_text (line-folding and text-prefix decoding) against a reference decoder for ALL "
-            "text-field bodies of 4-5 (thorough 3-8) units: the value is the decoded content, quoted.",
+            "text-field bodies of 4-5 (thorough 3-8) units: the value is the decoded content, quoted; and the real parse_value / parse_list / "
+            "parse_table over enumerated token scripts (lists, tables, one level of nesting) with symbolic token contents: the value is exactly "
+            "the tree the tokens denote.",
     "note": "one token / one text-field body per query: a whole document is covered only through the composition of token and production "
-            "contracts (argued, not mechanised); buffer filling is replaced by its contract (C08); byte decoding (ICU), parse_value / "
-            "parse_list / parse_table / parse_cif and the storage of parsed content are outside (the item / loop / frame productions are "
+            "contracts (argued, not mechanised); buffer filling is replaced by its contract (C08); byte decoding (ICU), parse_cif's block loop, "
+            "composite values beyond the enumerated scripts (a list or table nested inside a table gave no verdict) and the storage of parsed content are outside (the item / loop / frame productions are "
             "decided under C15 over token scripts)"}
 MANI["C12"] = {
     "text": "Lexical defect classes decided on the real scanner units against the reference tokenizer, for all buffers within the bound: "
